@@ -8,6 +8,7 @@ import (
 	"github.com/glebziz/fs_db"
 	"github.com/glebziz/fs_db/internal/model"
 	"github.com/glebziz/fs_db/internal/model/sequence"
+	"github.com/glebziz/fs_db/internal/utils/vhook"
 )
 
 func (u *UseCase) DeleteOld(ctx context.Context) error {
@@ -20,6 +21,7 @@ func (u *UseCase) DeleteOld(ctx context.Context) error {
 		return fmt.Errorf("tx repo oldest: %w", err)
 	}
 
+	vhook.AtSeq("cleaner.deleteold.horizon", uint64(tx.Seq))
 	files := u.core.DeleteOld(ctx, model.MainTxId, tx.Seq)
 	err = u.DeleteFiles(ctx, files)
 	if err != nil {
